@@ -1323,6 +1323,233 @@ def extra_corr_forms():
     return out
 
 
+def eval_index(e, env):
+    """Value of an LNodes index expression under `env` (symbol -> int, array name -> list of int)."""
+    import ffcx.codegeneration.lnodes as L
+    if isinstance(e, (int, np.integer)):
+        return int(e)
+    if isinstance(e, L.LiteralInt):
+        return int(e.value)
+    if isinstance(e, L.Symbol):
+        return env[e.name]
+    if isinstance(e, L.MultiIndex):
+        return eval_index(e.global_index, env)
+    if isinstance(e, L.ArrayAccess):
+        return env[e.array.name][eval_index(e.indices[0], env)]
+    if isinstance(e, L.Sum):
+        return sum(eval_index(a, env) for a in e.args)
+    if isinstance(e, L.Product):
+        out = 1
+        for a in e.args:
+            out *= eval_index(a, env)
+        return out
+    if isinstance(e, (L.Add, L.Mul)):
+        x, y = eval_index(e.lhs, env), eval_index(e.rhs, env)
+        return x + y if isinstance(e, L.Add) else x * y
+    raise TypeError(type(e))
+
+
+def scan_ast_tables(ast):
+    """(declared tables, accesses) of a generated kernel AST: name -> numpy array of every `ArrayDecl` with values, and the
+    set of (name, exported first index, exported second index, third index is the literal 0) of every 4-subscript access."""
+    import ffcx.codegeneration.lnodes as L
+    from harness import export
+    decls, accesses = {}, set()
+
+    def ex(e):
+        if isinstance(e, L.ArrayAccess):
+            if len(e.indices) == 4:
+                i2 = e.indices[2]
+                accesses.add((e.array.name, export.expr(e.indices[0]), export.expr(e.indices[1]),
+                              isinstance(i2, L.LiteralInt) and int(i2.value) == 0))
+            for i in e.indices:
+                ex(i)
+            return
+        if isinstance(e, L.MultiIndex):
+            for y in e.symbols:
+                ex(y)
+            ex(e.global_index)
+            return
+        for a in ("lhs", "rhs", "arg", "condition", "true", "false"):
+            if hasattr(e, a) and isinstance(getattr(e, a), L.LExpr):
+                ex(getattr(e, a))
+        if hasattr(e, "args"):
+            for a in e.args:
+                if isinstance(a, L.LExpr):
+                    ex(a)
+
+    def st(x):
+        if isinstance(x, list):
+            for y in x:
+                st(y)
+        elif isinstance(x, L.Statement):
+            st(x.expr)
+        elif isinstance(x, (L.Assign, L.AssignAdd)):
+            ex(x.lhs)
+            ex(x.rhs)
+        elif isinstance(x, L.VariableDecl):
+            if isinstance(x.value, L.LExpr):
+                ex(x.value)
+        elif isinstance(x, L.ArrayDecl):
+            if x.values is not None:
+                try:
+                    decls[x.symbol.name] = np.asarray(x.values, dtype=float)
+                except (TypeError, ValueError):
+                    pass  # an array of expressions (not a table)
+        elif isinstance(x, L.ForRange):
+            ex(x.begin)
+            ex(x.end)
+            st(x.body.statements)
+        elif isinstance(x, L.StatementList):
+            st(x.statements)
+        elif isinstance(x, L.Section):
+            st(x.declarations)
+            st(x.statements)
+
+    st(ast)
+    return decls, accesses
+
+
+def corr_real_table_reads(chk, d, forms_by_name, rng, per_table, max_work):
+    """`tableRead (modelTable …)` of the Lean model against the REAL generated tables read through the REAL index
+    expressions, value by value.
+
+    For every kernel of the given forms (exterior/interior facet, vertex) and every modified terminal with an emitted
+    table: the real array is the `ArrayDecl` of the generated AST; the real subscripts are what
+    `FFCXBackendAccess.table_access(tr, entity_type, restriction, iq, ic)` returns for the real table reference `tr`
+    (they must also occur in the AST), evaluated for seeded (quadrature_permutation, entity_local_index, iq, ic).
+    The model side: the driver builds `buildTable` (model permutation of the rule points, model reference-entity map,
+    basis functions = basix tabulation of the component element looked up BY CELL POINT) and reads it through
+    `tableRead` (= `entityRow` + `tableSubscripts` + `Table.get`) with the flags of `tr`."""
+    import ffcx.codegeneration.lnodes as L
+    from ffcx.codegeneration.backend import FFCXBackend
+    from ffcx.element_interface import basix_index
+    from ffcx.ir.elementtables import get_modified_terminal_element
+    from harness import export
+    options = pipeline.default_options()
+    stats = {"tables": 0, "reads": 0, "skipped_big": 0, "not_emitted": 0, "kernels": 0}
+    kind_of = {"exterior_facet": "facet", "interior_facet": "facet", "vertex": "vertex"}
+    for name, forms in forms_by_name:
+        try:
+            _, ir = pipeline.compute(forms, options)
+            ks = pipeline.kernels(ir, options)
+        except Exception as ex:  # noqa: BLE001 - rejected forms are C19's subject
+            chk.notes.setdefault("table_reads_skipped", []).append(f"{name}: {type(ex).__name__}")
+            continue
+        for k in ks:
+            if k.kind != "integral":
+                continue
+            ex_ir = k.ir.expression
+            itype = ex_ir.integral_type
+            if itype not in kind_of:
+                continue
+            stats["kernels"] += 1
+            decls, accesses = scan_ast_tables(k.ast)
+            backend = FFCXBackend(k.ir, options)
+            seen = set()
+            for (dom, rule), integrand in ex_ir.integrand.items():
+                if dom != k.domain:
+                    continue
+                X = np.asarray(rule.points, dtype=float)
+                npts = X.shape[0]
+                for node in integrand["factorization"].nodes.values():
+                    mt, tr = node.get("mt"), node.get("tr")
+                    if mt is None or tr is None or tr.tensor_factors is not None:
+                        continue
+                    if tr.ttype in ("zeros", "ones", "quadrature") or tr.name not in decls:
+                        stats["not_emitted"] += 1
+                        continue
+                    res = get_modified_terminal_element(mt)
+                    if not res:
+                        continue
+                    element, avg, derivs, fc = res
+                    cell = ufl.domain.extract_unique_domain(mt.terminal).ufl_cell().cellname
+                    if avg or cell not in TDIM or element.cell.topological_dimension != TDIM[cell] or cell == "prism":
+                        continue
+                    key = (tr.name, mt.restriction, tr.is_permuted, tr.is_uniform, tr.is_piecewise, tuple(derivs), fc,
+                           repr(element), rule.id())
+                    if key in seen:
+                        continue
+                    seen.add(key)
+                    td = TDIM[cell]
+                    ft = facet_type(cell, 0) if (itype == "interior_facet" and td >= 2) else "point"
+                    nent = len(ref_topology(cell)[td - 1 if kind_of[itype] == "facet" else 0])
+                    comp_el, _off, _stride = element.get_component_element(fc)
+                    nd, didx = sum(derivs), basix_index(derivs)
+                    arr = decls[tr.name]
+                    ndof = int(arr.shape[3])
+                    if NUM_CODES[ft] * nent * npts * (ndof + NUM_CODES[ft] * nent * npts) > max_work:
+                        stats["skipped_big"] += 1
+                        continue
+                    Xs = _pts_sexp(X) if X.shape[1] > 0 else "(" + " ".join("()" for _ in range(npts)) + ")"
+                    P = d.ask(f"(tablepoints {ft} {cell} {kind_of[itype]} {nent} {Xs})")
+                    vals = []
+                    for row in P:
+                        vrow = []
+                        for ent in row:
+                            pts = np.array([[float(Fraction(a)) for a in p] for p in ent], dtype=float).reshape(len(ent), td)
+                            vrow.append(np.asarray(comp_el.tabulate(nd, pts))[didx])  # [q][dof]
+                        vals.append(vrow)
+                    if vals[0][0].shape != (npts, ndof):
+                        chk.disagree("real table reads: shape of the component tabulation vs the generated table",
+                                     {"form": name, "table": tr.name, "tabulated": list(vals[0][0].shape),
+                                      "generated": list(arr.shape)})
+                        continue
+                    vtxt = "(" + " ".join("(" + " ".join("(" + " ".join("(" + " ".join(sexp.rat(float(v)) for v in dd) + ")"
+                                                                          for dd in q) + ")" for q in e) + ")" for e in vals) + ")"
+                    # the real subscripts
+                    backend.symbols.element_tables[tr.name] = L.Symbol(tr.name, dtype=L.DataType.REAL)
+                    iq = L.MultiIndex([L.Symbol("iq", dtype=L.DataType.INT)], [npts])
+                    ic = L.MultiIndex([L.Symbol("ic", dtype=L.DataType.INT)], [ndof])
+                    expr, _ = backend.access.table_access(tr, ex_ir.entity_type, mt.restriction, iq, ic)
+                    idx = list(expr.indices)
+                    i2zero = isinstance(idx[2], L.LiteralInt) and int(idx[2].value) == 0
+                    sig = (tr.name, export.expr(idx[0]), export.expr(idx[1]), i2zero)
+                    if sig not in accesses:
+                        chk.disagree("real table reads: subscripts of access.table_access do not occur in the generated AST",
+                                     {"form": name, "kernel": k.name, "table": tr.name, "subscripts": list(sig[1:]),
+                                      "ast_accesses": sorted(a[1:] for a in accesses if a[0] == tr.name)[:6]})
+                        continue
+                    ncodes = NUM_CODES[ft]
+                    reads = [((ncodes - 1, ncodes - 1), (nent - 1, nent - 1), npts - 1, ndof - 1)]
+                    for _ in range(per_table - 1):
+                        reads.append(((int(rng.integers(0, ncodes)), int(rng.integers(0, ncodes))),
+                                      (int(rng.integers(0, nent)), int(rng.integers(0, nent))),
+                                      int(rng.integers(0, npts)), int(rng.integers(0, ndof))))
+                    b = lambda x: "true" if x else "false"  # noqa: E731
+                    rn = {"+": "plus", "-": "minus", None: "none"}[mt.restriction]
+                    rtxt = " ".join(f"({b(tr.is_permuted)} {b(tr.is_uniform)} {b(tr.is_piecewise)} {rn} ({qp[0]} {qp[1]}) "
+                                    f"({el[0]} {el[1]}) {q} {dof})" for qp, el, q, dof in reads)
+                    model = d.ask(f"(tablereads {ft} {cell} {kind_of[itype]} {nent} {ndof} {Xs} {vtxt} {ex_ir.entity_type} "
+                                  f"({rtxt}))")
+                    stats["tables"] += 1
+                    for (qp, el, q, dof), mv in zip(reads, model):
+                        env = {"quadrature_permutation": list(qp), "entity_local_index": list(el), "iq": q, "ic": dof}
+                        try:
+                            ii = [eval_index(i, env) for i in idx]
+                            real = float(arr[ii[0], ii[1], ii[2], ii[3]])
+                        except (IndexError, KeyError, TypeError) as ex2:
+                            chk.disagree("real table reads: the real subscripts leave the generated table",
+                                         {"form": name, "table": tr.name, "shape": list(arr.shape), "env": env,
+                                          "error": repr(ex2)})
+                            continue
+                        mv = float(Fraction(mv))
+                        stats["reads"] += 1
+                        chk.case(kind="real_table_read",
+                                 key=f"{cell}:{itype}:{mt.restriction}:{b(tr.is_permuted)}{b(tr.is_uniform)}{b(tr.is_piecewise)}:"
+                                     f"{repr(element)[:40]}:{derivs}:{fc}:{qp}:{el}:{q}:{dof}")
+                        tol = 1e-9 * max(1.0, abs(mv))
+                        clamped = real in (-1.0, 0.0, 1.0) and abs(mv - real) <= 1e-9 + 1e-6 * abs(real)
+                        if not (abs(real - mv) <= tol or clamped):
+                            chk.disagree("tableRead (modelTable …) vs the real generated table read through the real subscripts",
+                                         {"form": name, "kernel": k.name, "table": tr.name, "cell": cell,
+                                          "integral_type": itype, "restriction": mt.restriction,
+                                          "flags": [tr.is_permuted, tr.is_uniform, tr.is_piecewise],
+                                          "quadrature_permutation": list(qp), "entity_local_index": list(el), "iq": q,
+                                          "ic": dof, "real_subscripts": ii, "impl": real, "model": mv})
+    chk.notes["real_table_reads"] = stats
+
+
 def corr_layout(chk, d, rng):
     """Macro layout observed on compiled kernels vs the model's index functions:
     u(ru)*v(rv)*dS touches exactly the (rv, ru) block of A; a functional of f_k(r) is sensitive to
